@@ -3,20 +3,25 @@ from symx.bstr import lit, tracing, _isb, BStr
 
 
 class FakeDecoder:
-    """Stateful uninterpreted incremental decoder: the k-th call returns the token 'Dk;' and records
+    """Stateful uninterpreted incremental decoder: the k-th call returns a token as long as its input (k-th letter repeated) and records
     (chunk, final).  CPython's decoders are assumed split-invariant (A1); what is checked is that
     pexpect feeds every byte exactly once, in order, to this one object with final=False and passes
     on exactly what it returns."""
 
     def __init__(self, text=True):
         self.calls = []
+        self.outs = []
         self.text = text
 
     def decode(self, b, final=False):
         k = len(self.calls)
         self.calls.append((b, final))
-        tok = 'D%d;' % k
+        tok = chr(65 + k) * len(b)        # as long as its input, distinct per call
+        self.outs.append(tok)
         return tok if self.text else tok.encode()
+
+    def all_out(self):
+        return ''.join(self.outs)
 
 
 class FakeEncoder:
